@@ -1,10 +1,13 @@
 package simsync_test
 
 import (
+	"context"
+	"fmt"
 	"math/rand"
 	"sync"
 	"testing"
 	"testing/synctest"
+	"time"
 
 	"simshim/simrt"
 	"simshim/simsync"
@@ -145,5 +148,86 @@ func TestMutexExcludesUnderEverySchedule(t *testing.T) {
 				t.Fatalf("seed %d: deadlock=%v total=%d", seed, rep.Deadlock, total)
 			}
 		})
+	}
+}
+
+// Callbacks that the Go runtime starts on goroutines of its own (context.AfterFunc, time.AfterFunc) run as
+// tasks: the same tape gives the same schedule trace every time, the callback's effects are ordered by the
+// simulated primitives like any task's, and a callback that can never fire does not mask a deadlock.
+func TestRuntimeCallbacksAreTasksAndReplay(t *testing.T) {
+	run := func(tape []uint32, sleeper bool) (uint64, []string, bool) {
+		var log []string
+		var rep *simrt.Report
+		synctest.Test(t, func(t *testing.T) {
+			var mu simsync.Mutex
+			rep = simrt.Run(simrt.Config{Tape: tape}, func() {
+				ctx, cancel := context.WithCancel(context.Background())
+				stop := simrt.ContextAfterFunc(ctx, func() {
+					mu.Lock()
+					log = append(log, "ctx-callback")
+					mu.Unlock()
+				})
+				tctx, tcancel := context.WithTimeout(context.Background(), 50*time.Millisecond)
+				defer tcancel()
+				simrt.ContextAfterFunc(tctx, func() {
+					mu.Lock()
+					log = append(log, "deadline-callback")
+					mu.Unlock()
+				})
+				simrt.TimeAfterFunc(20*time.Millisecond, func() {
+					mu.Lock()
+					log = append(log, "timer-callback")
+					mu.Unlock()
+				})
+				never, nevercancel := context.WithCancel(context.Background())
+				defer nevercancel()
+				stopNever := simrt.ContextAfterFunc(never, func() { t.Error("a callback whose context was never cancelled ran") })
+				var ts []*simrt.Task
+				for k := 0; k < 3; k++ {
+					k := k
+					ts = append(ts, simrt.GoNamed("w", func() {
+						for j := 0; j < 3; j++ {
+							mu.Lock()
+							log = append(log, fmt.Sprintf("w%d.%d", k, j))
+							simrt.Yield(simrt.SiteUser)
+							mu.Unlock()
+							if k == 1 && j == 1 {
+								cancel()
+							}
+						}
+					}))
+				}
+				simrt.Join(ts...)
+				if sleeper {
+					simrt.Sleep(100 * time.Millisecond) // simulated time passes: the timer and the deadline fire
+				}
+				if stop() {
+					t.Error("stop() reported that the cancelled context's callback had not been started")
+				}
+				if !stopNever() {
+					t.Error("stop() of a callback that never fired returned false")
+				}
+			})
+		})
+		return rep.TraceHash, log, rep.Deadlock
+	}
+	for seed := int64(1); seed <= 60; seed++ {
+		rng := rand.New(rand.NewSource(seed))
+		tape := make([]uint32, 300)
+		for i := range tape {
+			tape[i] = uint32(rng.Intn(5))
+		}
+		h1, l1, d1 := run(tape, true)
+		h2, l2, d2 := run(tape, true)
+		if h1 != h2 || fmt.Sprint(l1) != fmt.Sprint(l2) || d1 || d2 {
+			t.Fatalf("seed %d: two runs of one tape differ or deadlock: %x %v %v / %x %v %v", seed, h1, l1, d1, h2, l2, d2)
+		}
+		count := map[string]int{}
+		for _, e := range l1 {
+			count[e]++
+		}
+		if count["ctx-callback"] != 1 || count["deadline-callback"] != 1 || count["timer-callback"] != 1 || len(l1) != 12 {
+			t.Fatalf("seed %d: callbacks did not each run exactly once: %v", seed, l1)
+		}
 	}
 }
